@@ -35,11 +35,19 @@ RULE = ('for each call form: all tables of n rows (two fields) x every subset of
         'LookupError, TypeError, ValueError, AttributeError, StopIteration, RuntimeError, ZeroDivisionError besides '
         'the custom class) x all inputs of <= 2 rows (3 thorough) x policy x {argument, config} x errorvalue '
         '{omitted, "ERR"}: the expected observation does not depend on the type.  '
+        'Stateful user functions: every call of a user function handed to petl is logged in every case and the '
+        'log (number and order of calls, points of raising) must equal the model\'s: each function is called '
+        'exactly once per (row, cell) it applies to per pass, rows in order, cells left to right, and the policy '
+        'applies to the outcome of that one call; in addition every such form is run with fail-once functions '
+        '(raise only the first time they meet an offending value, succeed on a retry) and with call-counting '
+        'functions (results carry the call ordinal) over all inputs of <= 2 rows (3 thorough).  '
         'Excluded: StopIteration raised inside map() / a hand-written iterator (the iterator protocol defines it as '
         'the end of the row, not a failure); a raising `where` predicate, a mapper returning a non-row, policy values other than the three '
         'documented ones (None / other truthy values), exceptions not derived from Exception; under True the '
         'rows a generator produced for the failing input row before failing may or may not be delivered.')
-ASSUMPTIONS = ['tables have <= 4 rows (5 thorough) and two fields; user functions fail as a function of the cell value',
+ASSUMPTIONS = ['tables have <= 4 rows (5 thorough) and two fields; user functions fail as a function of the cell value '
+               '(and, in the stateful modes, of whether they met it before / of the call ordinal)',
+               'user functions are called in row order and, within a row, left to right (what the call log fixes)',
                'the config default is read when the view is constructed (anchor petl/transform/conversions.py:338)']
 
 POLICIES = (False, True, 'inline')
@@ -67,6 +75,7 @@ def _nmax(tier):
 def bounds(tier, seed):
     return {'max_rows': _nmax(tier), 'max_rows_rowmapmany': 5 if tier == 'thorough' else 4,
             'forms': len(BUILD), 'policies': 3, 'user_exception_types': list(ref.KIND_ORDER),
+            'user_function_states': list(ref.STATES), 'call_log_checked': True,
             'exception_type_space_max_rows': 3 if tier == 'thorough' else 2,
             'short_row_forms_max_rows': 4 if tier == 'thorough' else 3, 'modes': list(MODES), 'errorvalues': ['<omitted>', None, 'ERR']}
 
@@ -165,15 +174,7 @@ FUNCTION = dict((f, _function(f)) for f in BUILD)
 
 def _payload(e):
     """Payload of the user exception if e is it (or wraps it), else '*'."""
-    seen = 0
-    x = e
-    while x is not None and seen < 5:
-        mine, v = ref.user_payload(x)
-        if mine:
-            return v
-        x = x.__cause__ or x.__context__
-        seen += 1
-    return ref.ANY
+    return ref.payload_of(e)
 
 
 def _normcell(c):
@@ -189,8 +190,19 @@ def _normrow(r):
         return ('<not a row>', repr(r)[:80])
 
 
-def observe(form, tbl, policy, mode, errorvalue, selected):
-    """One pass over the real view.  Returns (delivered rows, payload of terminating exception or None, stage)."""
+def observe(form, tbl, policy, mode, errorvalue, selected, state='pure'):
+    """One pass over the real view in a fresh user-function context.
+    Returns (delivered rows, payload of terminating exception or None, stage, call log)."""
+    ctx = ref.Ctx(state)
+    old = ref.swap_ctx(ctx)
+    try:
+        delivered, raised, stage = _observe(form, tbl, policy, mode, errorvalue, selected)
+    finally:
+        ref.swap_ctx(old)
+    return delivered, raised, stage, ctx.log
+
+
+def _observe(form, tbl, policy, mode, errorvalue, selected):
     kw = {}
     if errorvalue is not ref.OMIT and errorvalue != ref.OMIT:
         kw['errorvalue'] = errorvalue
@@ -242,13 +254,21 @@ def check_case(case):
     ev = case.get('errorvalue', ref.OMIT)
     selected = case.get('selected')
     ref.set_kind(case.get('exc', 'Boom'))
+    state = case.get('state', 'pure')
     try:
-        exp = ref.expected(form, tbl, policy, ev, set(selected) if selected is not None else None)
-        delivered, raised, stage = observe(form, tbl, policy, mode, ev, selected)
+        exp = ref.expected(form, tbl, policy, ev, set(selected) if selected is not None else None, state)
+        delivered, raised, stage, log = observe(form, tbl, policy, mode, ev, selected, state)
     finally:
         ref.set_kind('Boom')
-    if ref.matches(exp, delivered, raised):
+    rows_ok = ref.matches(exp, delivered, raised)
+    if rows_ok and log == exp['log']:
         return None, exp, delivered, raised
+    if rows_ok:
+        sig = 'user functions were not called exactly once per applicable row/cell, in order'
+        observed = {'calls': _showlog(log), 'number of calls': len(log)}
+        expected = {'calls': _showlog(exp['log']), 'number of calls': len(exp['log'])}
+        msg = '%s, policy %r (%s), %s user functions: %s' % (form, policy, mode, state, sig)
+        return (sig, expected, observed, msg), exp, delivered, raised
     # failure signature (never contains input values)
     if exp['raises'] is None and raised is not None:
         sig = 'raised at %s although policy %r never raises' % (
@@ -265,12 +285,19 @@ def check_case(case):
         sig = 'wrong number of rows under %r' % (policy,)
     else:
         sig = 'wrong cell or row content under %r' % (policy,)
-    observed = {'delivered': delivered, 'raised': raised, 'at': stage}
-    expected = {'delivered': exp['rows'], 'raised': exp['raises'], 'optional_tail': exp['optional']}
-    msg = '%s%s, policy %r (%s), errorvalue %s: %s' % (
-        form, '' if case.get('exc', 'Boom') == 'Boom' else ' [user function raises %s]' % case['exc'], policy, mode,
+    observed = {'delivered': delivered, 'raised': raised, 'at': stage, 'calls': _showlog(log)}
+    expected = {'delivered': exp['rows'], 'raised': exp['raises'], 'optional_tail': exp['optional'],
+                'calls': _showlog(exp['log'])}
+    msg = '%s%s%s, policy %r (%s), errorvalue %s: %s' % (
+        form, '' if case.get('exc', 'Boom') == 'Boom' else ' [user function raises %s]' % case['exc'],
+        '' if state == 'pure' else ' [%s user functions]' % state, policy, mode,
                                                     '<omitted>' if ev == ref.OMIT else repr(ev), sig)
     return (sig, expected, observed, msg), exp, delivered, raised
+
+
+def _showlog(log):
+    log = [tuple(e) for e in log]
+    return log if len(log) <= 24 else log[:24] + [('... %d more' % (len(log) - 24),)]
 
 
 def replay(case):
@@ -362,7 +389,17 @@ def items(tier, seed):
                 if kind == 'StopIteration' and form in ref.STOPITERATION_IS_EXHAUSTION:
                     continue
                 kinds.append((form, n, KIND_MODES, kind))
-    return out + kinds
+    # stateful user functions: fail-once and call-counting, every form that has user functions
+    stateful = []
+    for n in range(0, kmax + 1):
+        for form in spaces.rotate(sorted(BUILD), seed):
+            if form not in KIND_FORMS:
+                continue
+            if ref.FORMS[form]['style'] == 'many-lazy' and n > 2:
+                continue
+            for state in ref.STATES[1:]:
+                stateful.append((form, n, KIND_MODES, 'Boom', state))
+    return out + kinds + stateful
 
 
 KIND_MODES = ('arg', 'config')
@@ -397,9 +434,10 @@ KIND_FORMS = _kind_forms()
 def run_item(item, acc):
     form, n, modes = item[:3]
     kind = item[3] if len(item) > 3 else 'Boom'
+    state = item[4] if len(item) > 4 else 'pure'
     if not ref.has_errorvalue(form):
         evs = (ref.OMIT,)
-    elif kind != 'Boom':
+    elif kind != 'Boom' or state != 'pure':
         evs = KIND_ERRORVALUES
     elif ref.FORMS[form]['style'] == 'ragged':
         evs = RAGGED_ERRORVALUES
@@ -424,6 +462,8 @@ def run_item(item, acc):
                     case = {'form': form, 'table': tbl, 'policy': policy, 'mode': mode}
                     if kind != 'Boom':
                         case['exc'] = kind
+                    if state != 'pure':
+                        case['state'] = state
                     if ev is not ref.OMIT:
                         case['errorvalue'] = ev
                     if selected is not None:
@@ -438,6 +478,8 @@ def run_item(item, acc):
                             acc.counters['nontrivial:' + form] += 1
                             if kind != 'Boom':
                                 acc.counters['nontrivial with user exception type:' + kind] += 1
+                            if state != 'pure':
+                                acc.counters['nontrivial with %s user functions' % state] += 1
                     acc.counters['evals:' + form] += 1
                     acc.outcome((policy, len(delivered), raised is not None,
                                  sum(1 for r in delivered for c in r if isinstance(c, tuple) and c[:1] == (ref.EXC,))))
@@ -455,4 +497,6 @@ def vacuity(cov, tier):
     c = cov['per_case_counters']
     return ['no non-trivial case for %s' % f for f in sorted(BUILD) if not c.get('nontrivial:' + f)] + \
            ['no non-trivial case with user functions raising %s' % k for k in ref.KIND_ORDER[1:]
-            if not c.get('nontrivial with user exception type:' + k)]
+            if not c.get('nontrivial with user exception type:' + k)] + \
+           ['no non-trivial case with %s user functions' % st for st in ref.STATES[1:]
+            if not c.get('nontrivial with %s user functions' % st)]
